@@ -44,10 +44,11 @@ class Session:
         entry = {"module": label or module, "states": r["distinct"], "transitions": r["states"],
                  "wall_s": round(r["wall"], 1), "result": "ok" if r["ok"] else ("violated:%s" % r["violated"])}
         if expect_violation:
-            if r["violated"] != expect_violation:
+            allowed = (expect_violation,) if isinstance(expect_violation, str) else tuple(expect_violation)
+            if r["violated"] not in allowed:
                 raise C.ToolError("negative control %s: expected invariant %s to fail, got %s\n%s" % (
                     label or module, expect_violation, r["violated"], r["out"][-1500:]))
-            entry["result"] = "negative control: %s violated as required" % expect_violation
+            entry["result"] = "negative control: %s violated as required" % r["violated"]
         else:
             if r["timeout"]:
                 raise C.ToolError("model %s timed out" % module)
